@@ -682,6 +682,11 @@ var solvers = map[string]solverSpec{
 	"z3new": {"z3-5.1.0", func(f string, t int) []string {
 		return []string{"z3-new", "-smt2", fmt.Sprintf("-T:%d", t), f}
 	}},
+	// same binary, E-matching only (no model-based instantiation, no automatic
+	// tactic selection): much faster on VCs with many pattern-guarded heap axioms
+	"z3e": {"z3-5.1.0-ematch", func(f string, t int) []string {
+		return []string{"z3-new", "-smt2", fmt.Sprintf("-T:%d", t), "smt.mbqi=false", "smt.auto_config=false", f}
+	}},
 	"cvc5": {"cvc5-1.0.3", func(f string, t int) []string {
 		return []string{"cvc5", "--lang=smt2", fmt.Sprintf("--tlimit=%d", t*1000), f}
 	}},
@@ -900,11 +905,11 @@ func solveFile(o *Obligation, file string, cfg *SolveConfig) {
 	if o.ExpectSat {
 		// vacuity guard: only a definite unsat is a failure; do not spend the long timeout on it
 		race([]string{"z3", "z3new"}, 3)
-	} else if !race([]string{"z3", "z3new"}, cfg.t1) || cfg.allAgree {
+	} else if !race([]string{"z3", "z3new", "z3e"}, cfg.t1) || cfg.allAgree {
 		if cfg.allAgree {
 			race([]string{"cvc5"}, cfg.t2)
 		} else {
-			race([]string{"cvc5", "z3", "z3new"}, cfg.t2)
+			race([]string{"cvc5", "z3", "z3new", "z3e"}, cfg.t2)
 		}
 	}
 	var sawSat, sawUnsat *solveResult
